@@ -4,12 +4,14 @@ Every environment choice the program could depend on is made a solver variable:
 setorder : the iteration order of every set of connection ids (what PYTHONHASHSEED changes) is chosen by the solver each time a set
            is iterated; the C02 assertion must hold on every path, i.e. the export is the same for every order.
 cwd      : os.path.exists() of every path not named on the command line is a symbolic boolean (any working directory).
+env      : main.run without -s (secrets of one connection in a DSB) with an empty process environment and with the usual variables set,
+           among them SSLKEYLOGFILE naming a readable key log that holds another connection's secrets: identical writer calls.
 sched    : two connections in one capture, main.run() twice in one path; the completion order of concurrent.futures tasks (if the code
            uses any) is chosen by the solver independently in both runs (tlv/models/sched_model.py): identical writer calls.
 rerun    : main.run() on capture A and then, in the same process, on capture B: B's writer calls must equal those of B alone."""
 
 VALIDATE = False
-SITES = ["no-exception", "datagrams-equal-stream-data", "cwd-independent", "second-run-unaffected", "schedule-independent"]
+SITES = ["no-exception", "datagrams-equal-stream-data", "cwd-independent", "second-run-unaffected", "schedule-independent", "environment-independent"]
 MODELS = ["set(): SymSet with solver-chosen iteration order", "file system / reader / writer stubs (tlv/harness/rundriver.py)", "as C01/C02"]
 ASSUMPTIONS = ["CPython dicts and lists are insertion ordered; sets are the only hash-order dependent containers in the code (connection-id sets)"]
 
@@ -33,6 +35,7 @@ def configs(tier, seed):
         out.append({"harness": "cwd", "name": "cwd-" + proto, "proto": proto})
         out.append({"harness": "rerun", "name": "rerun-%s-then-%s" % (proto, proto), "first": proto, "second": proto})
     out.append({"harness": "sched", "name": "sched-two-tls-connections"})
+    out.append({"harness": "env", "name": "env-variables"})
     out.append({"harness": "rerun", "name": "rerun-tls-then-quic", "first": "tls", "second": "quic"})
     out.append({"harness": "rerun", "name": "rerun-quic-then-tls", "first": "quic", "second": "tls"})
     return out
@@ -40,7 +43,8 @@ def configs(tier, seed):
 
 def bounds(tier):
     return {"setorder": "iteration orders of the connection-id sets (identity, reversal, all rotations: every pair in both orders) chosen independently at every iteration, C02 basic and NEW_CONNECTION_ID flows, 5 connection-id length shapes incl. zero-length; one shape in which the client's id is a prefix of the server's id (elsewhere the ids of a connection are assumed prefix-free)",
-            "cwd": "existence of every path not given on the command line", "sched": "two TLS connections, every completion order of <= 3 futures (rotations and reversal beyond)", "rerun": "two consecutive in-process runs (TLS/QUIC in all four combinations)",
+            "cwd": "existence of every path not given on the command line", "env": "process environment empty vs a fixed set of variables (SSLKEYLOGFILE, TLEXPORT_KEYLOG, KEYLOG naming a readable key log; HOME, PWD, TZ, LANG, PYTHONHASHSEED)",
+            "sched": "two TLS connections, every completion order of <= 3 futures (rotations and reversal beyond)", "rerun": "two consecutive in-process runs (TLS/QUIC in all four combinations)",
             "outside": "PYTHONHASHSEED effects other than set iteration order"}
 
 
@@ -123,6 +127,25 @@ def run_config(cfg):
                 c.check(True, "no-exception")
                 c.check(_same(base, var) and len(base) >= 3, "cwd-independent", "%r vs %r" % ([(x[0], len(x[1]), x[2]) for x in base], [(x[0], len(x[1]), x[2]) for x in var]))
                 return {"outcome": "same", "validate": False}
+            if h == "env":
+                # two connections; the secrets of the first come in a DSB, no -s; the process environment is empty in one run and
+                # holds the usual variables (SSLKEYLOGFILE naming a readable key log with the second connection's secrets among
+                # them) in the other: identical writer calls
+                epa, epb = P.Endpoint(ipv=4, c_port=50000), P.Endpoint(ipv=4, c_port=50001)
+                ba, kla, _ = _scenario_blocks(mods, "tls", SC.SymSrc("a."), epa)
+                bb, klb, _ = _scenario_blocks(mods, "tls", SC.SymSrc("b."), epb)
+                blocks = [(-1, b"DSB-A secrets of the first connection")] + ba + bb
+                table = {"DSB-A secrets of the first connection": kla, "FILE-B": klb}
+                mods["tlexport.keylog_reader"].get_keys_from_string = lambda text: P.keylog_objects(mods, table.get(str(text).strip(), []))
+                argv = ["-i", "in.pcapng", "-o", "o.pcapng"]
+                environ = {"SSLKEYLOGFILE": "env.log", "HOME": "/home/u", "PWD": "/tmp", "TZ": "UTC", "LANG": "C", "PYTHONHASHSEED": "7", "TLEXPORT_KEYLOG": "env.log",
+                           "KEYLOG": "env.log"}
+                files = {"env.log": "FILE-B"}
+                one = _summ(RD.run_main(mods, argv, RD.RunEnv(mods, blocks, files=files)))
+                two = _summ(RD.run_main(mods, argv, RD.RunEnv(mods, blocks, files=files, environ=environ)))
+                c.check(True, "no-exception")
+                c.check(_same(one, two) and len(one) >= 3, "environment-independent", "empty environment: %d packets written, with variables set: %d" % (len(one), len(two)))
+                return {"outcome": "same", "validate": False}
             if h == "sched":
                 # two connections in one capture, run twice: whatever a scheduler may decide (completion order of futures, chosen by
                 # the solver independently in both runs) must not show in the writer calls
@@ -182,7 +205,42 @@ def replay(cfg, viol):
         return _replay_rerun(cfg, viol["inputs"])
     if h == "sched":
         return _replay_sched(cfg, viol["inputs"])
+    if h == "env":
+        return _replay_env(cfg, viol["inputs"])
     return {"reproduced": None, "why": "no concrete replay for the cwd harness (covered by C09 delivery replays)"}
+
+
+def _replay_env(cfg, inp):
+    """Real program: DSB with the first connection's secrets, no -s; empty environment vs SSLKEYLOGFILE (and friends) naming a key log
+    with the second connection's secrets."""
+    import os
+    import tempfile
+    import shutil
+    from tlv import e2e
+    from tlv.harness import pipeline as P
+    from tlv.oracle import scenario as SC
+    scfg = {"version": "TLS12", "suite": 0x009c, "suite_name": "TLS_RSA_WITH_AES_128_GCM_SHA256", "records": 2, "max_len": 1, "min_len": 1, "grouping": "one"}
+    pk, kls = [], []
+    for prefix, port in (("a.", 50000), ("b.", 50001)):
+        items, keylog, _ = SC.build(scfg, SC.ConcreteSrc(inp, prefix=prefix))
+        pk += e2e.concrete_frames(P.Endpoint(ipv=4, c_port=port), items)
+        kls.append(keylog)
+    d = tempfile.mkdtemp(prefix="tlv-env-")
+    try:
+        path = os.path.join(d, "env.log")
+        open(path, "w").write(e2e.keylog_text(kls[1]))
+        kw = dict(capture_kw={"dsbs": [e2e.keylog_text(kls[0]).encode()]})
+        base_env = {k: None for k in ("SSLKEYLOGFILE", "TLEXPORT_KEYLOG", "KEYLOG")}
+        a = e2e.run_tlexport(pk, None, env_extra={k: "" for k in ()}, **kw)
+        b = e2e.run_tlexport(pk, None, env_extra={"SSLKEYLOGFILE": path, "TLEXPORT_KEYLOG": path, "KEYLOG": path, "TZ": "UTC", "LANG": "C"}, **kw)
+        problems = list(a["problems"][:2]) + list(b["problems"][:2])
+        fa = [(x.get("l4"), x.get("sport"), x.get("dport"), x.get("payload"), x["ts"][0]) for x in a["frames"]]
+        fb = [(x.get("l4"), x.get("sport"), x.get("dport"), x.get("payload"), x["ts"][0]) for x in b["frames"]]
+        if not problems and fa != fb:
+            problems.append("%d packets exported with an empty environment, %d with SSLKEYLOGFILE set" % (len(fa), len(fb)))
+        return {"reproduced": bool(problems), "problems": problems}
+    finally:
+        shutil.rmtree(d, ignore_errors=True)
 
 
 def _replay_sched(cfg, inp):
